@@ -319,7 +319,66 @@ pub fn run(tier: Tier) -> i32 {
         }
     }
     let _ = no_span;
-    run.states = cases.len() as u64;
+    // ---- part B: error-producing single-token edits of real programs, site known
+    let mut seeds = crate::seeds::integration_queries();
+    for (i, h) in crate::seeds::HAND.iter().enumerate() {
+        seeds.push((format!("hand#{i}"), h.to_string()));
+    }
+    if tier == Tier::Thorough {
+        seeds.extend(crate::seeds::book_examples());
+    }
+    const TRANSFORMS: &[&str] = &["select", "derive", "filter", "sort", "take", "join", "group", "aggregate", "window", "append"];
+    let mut edits: Vec<(String, Built, &'static str)> = vec![];
+    for (name, src) in &seeds {
+        // only seeds that compile (for the generic dialect) are edited
+        if !matches!(guard(|| prqlc::compile(src, &prqlc::Options::default().no_signature())), Ok(Ok(_))) {
+            continue;
+        }
+        let toks = match prqlc_parser::lexer::lex_source(src) {
+            Ok(t) => t.0,
+            Err(_) => continue,
+        };
+        for t in toks.iter().skip(1) {
+            let (a, b) = (t.span.start, t.span.end);
+            if !(src.is_char_boundary(a) && src.is_char_boundary(b)) || a >= b {
+                continue;
+            }
+            let ca = src[..a].chars().count();
+            let text = &src[a..b];
+            // (1) a stray character in place of the token: lexer error exactly there
+            if matches!(t.kind, prqlc_parser::lexer::lr::TokenKind::Ident(_) | prqlc_parser::lexer::lr::TokenKind::Literal(_)) && !text.contains(|c: char| c == '\n') {
+                let edited = format!("{}^{}", &src[..a], &src[b..]);
+                edits.push((format!("{name}@{ca}:stray-char"), Built { files: vec![("".into(), edited)], err_file: "".into(), region: (ca, ca + 1) }, "lexer"));
+            }
+            // (2) an unknown function in place of a transform name: resolver error at that token
+            if TRANSFORMS.contains(&text) {
+                let repl = "zz_no_such_fn";
+                let edited = format!("{}{repl}{}", &src[..a], &src[b..]);
+                // the call as a whole may be blamed: allow the span to start at the token and extend to the line end
+                edits.push((format!("{name}@{ca}:unknown-function"), Built { files: vec![("".into(), edited)], err_file: "".into(), region: (ca, ca + repl.len()) }, "resolver"));
+            }
+        }
+    }
+    let outs = par_map(&edits, || (), |_, (_, b, stage)| check(b, stage));
+    for ((name, b, stage), bad) in edits.iter().zip(outs) {
+        run.validated += 1;
+        run.count(&format!("seed_edits:{stage}"), 1);
+        let multibyte_before = b.files[0].1.chars().take(b.region.0).any(|c| c.len_utf8() > 1);
+        for (k, m) in bad {
+            // an edit may turn the program into a different valid one (e.g. `^` inside an s-string): not an error case
+            if k == "erroneous-source-accepted" {
+                run.count("seed_edits:still_compiles", 1);
+                continue;
+            }
+            let key = if multibyte_before && *stage != "lexer" && (k.starts_with("span-misses-offending-text") || k == "span-outside-source" || k == "location-is-not-position-of-span" || k == "display-does-not-quote-the-line" || k.starts_with("panic@prqlc/prqlc/src/error_message.rs")) {
+                "byte-offset-span-used-as-character-offset".to_string()
+            } else {
+                k
+            };
+            run.violate(Some(key), format!("{name}: {m}"), json!({"driver":"EDIT-seed","case": name, "files": b.files, "region_chars": [b.region.0, b.region.1], "detail": m}));
+        }
+    }
+    run.states = (cases.len() + edits.len()) as u64;
     run.transitions = st.points;
     run.set("bounds", json!({"templates": TEMPLATES.iter().map(|t| t.0).collect::<Vec<_>>(), "paddings": PADDINGS.iter().map(|p| p.0).collect::<Vec<_>>(), "placements": ["single file", "2 files, error in root", "2 files, error in module", "3 files, error in module"]}));
     run.set("rule", json!("complete product template × padding × placement; each erroneous project is compiled; every returned error is checked: non-empty reason; span ordered, inside the named file, location = line/column of the span, display quotes that line, and some span touches the known offending text (character-offset convention, as documented for ErrorMessage::span)"));
